@@ -195,6 +195,13 @@ def flo_need(n, vp=vpath_flo):
     k = n[0]
     if k == "var":
         return "%s %s %d" % (vp(n[1]), n[2], n[3])
+    if k in ("updated", "changed"):
+        t = "%s is %s" % (vp(n[1]), k)
+        if n[2]:
+            t += " in frame %s" % n[2]
+        if n[3]:
+            t += " by %s" % n[3]
+        return t
     if k == "not":
         return "not " + flo_need(n[1], vp)
     return kernel.flo_need(n)
@@ -268,6 +275,11 @@ def render_flo_clones(prog, inits=None):
                         L.append(ind + "precur")
                         inprecur = True
                     L.append(ind + "  " + flo_act(pa[1]))
+                elif pa[0] == "go" and len(pa) > 3 and pa[3] == "timeout":
+                    # the verb itself: `timeout T` = go <lexically next frame> if elapsed >= T
+                    L.append(ind + "timeout %s" % fl(pa[1][0][2]))
+                elif pa[0] == "go" and len(pa) > 3 and pa[3] == "repeat":
+                    L.append(ind + "repeat %d" % pa[1][0][2])
                 elif pa[0] == "go":
                     L.append(ind + "go %s%s" % (pa[2], flo_needs(pa[1])))
                 elif pa[0] == "aux":
@@ -285,9 +297,48 @@ def render_flo_clones(prog, inits=None):
 # ---------------------------------------------------------------------------
 # Coq: source framers with placeholders + one spec per clone instance
 # ---------------------------------------------------------------------------
+class CMarks(object):
+    """mirror of needing.NeedMarker._resolve for every EXECUTING framer (source framer, clone instance, or the moot
+    text itself as placeholder): one Mark per (share, '<framer NAME><<marker or frame>'); a marker need with an
+    `in frame` clause inserts an enact marker FIRST in that frame unless an equal one is already there."""
+
+    def __init__(self, lay):
+        self.lay = lay
+        self.ids = {}
+        self.enact = {}         # (source framer, frame) -> inserted marker acts [kind, need], first = last inserted
+        for fm in lay.prog["framers"]:
+            for fr in fm["frames"]:
+                for (frn, m) in self.uses_in(fr):
+                    if m[2]:
+                        frame = fr["name"] if m[2] == "me" else m[2]
+                        lst = self.enact.setdefault((fm["name"], frame), [])
+                        # equality of inserted markers = same kind and same Mark (share, marker key)
+                        ent = (m[0], self.mid(fm["name"], fr["name"], m), fr["name"], m)
+                        if (ent[0], ent[1]) not in [(e[0], e[1]) for e in lst]:
+                            lst.insert(0, ent)
+
+    @staticmethod
+    def uses_in(fr):
+        out = []
+        for pa in fr.get("preacts", []):
+            if pa[0] in ("go", "aux"):
+                for nd in pa[1]:
+                    for m in kernel.marker_needs(nd):
+                        out.append((fr["name"], m))
+        return out
+
+    def mid(self, who, frn, m):
+        frame = frn if (not m[2] or m[2] == "me") else m[2]
+        k = (self.lay.var(m[1], who, frn), who + "<" + (m[3] if m[3] else frame))
+        if k not in self.ids:
+            self.ids[k] = len(self.ids)
+        return self.ids[k]
+
+
 class CoqR(object):
     def __init__(self, lay):
         self.lay = lay
+        self.marks = CMarks(lay)
 
     def tidof(self, name, fm):
         if name == "me":
@@ -311,6 +362,9 @@ class CoqR(object):
             return "NAlways"
         if k == "var":
             return "(NVar %s %s %s)" % (cn(lay.var(n[1], fm["name"], frn)), CMPS[n[2]], cz(n[3]))
+        if k in ("updated", "changed"):
+            return "(%s %s %s)" % ("NUpdated" if k == "updated" else "NChanged", cn(lay.var(n[1], fm["name"], frn)),
+                                   cn(self.marks.mid(fm["name"], frn, n)))
         if k == "elapsed":
             return "(@NElapsed FOps %s %s)" % (CMPS[n[1]], cf(n[2]))
         if k == "recurred":
@@ -379,7 +433,12 @@ class CoqR(object):
             exacts = [self.act(fm, frn, a) for a in fr.get("exacts", [])] + deact
 
             def acts(key):
-                return clist([self.act(fm, frn, a) for a in fr.get(key, [])], "(act FOps)")
+                pre_m = []
+                if key == "enacts":         # enact markers inserted first by the resolver
+                    for (kind, mk, nfrn, m) in self.marks.enact.get((fm["name"], frn), []):
+                        pre_m.append("(AMarkU %s false)" % cn(mk) if kind == "updated" else
+                                     "(AMarkC %s %s)" % (cn(self.lay.var(m[1], fm["name"], nfrn)), cn(mk)))
+                return clist(pre_m + [self.act(fm, frn, a) for a in fr.get(key, [])], "(act FOps)")
             frs.append(
                 "(@Build_frame FOps %s %s %s %s %s %s %s %s %s %s)" % (
                     "None" if not fr.get("over") else "(Some %s)" % cn(fids[fr["over"]]),
@@ -396,7 +455,8 @@ def cpairs(ps):
     return clist(["(%s, %s)" % (cn(a), cn(b)) for a, b in ps], "(nat * nat)")
 
 
-def render_specs(lay):
+def render_specs(lay, marks=None):
+    marks = marks or CMarks(lay)
     prog = lay.prog
     nrel = prog.get("nrel", 0)
     specs = []
@@ -414,10 +474,17 @@ def render_specs(lay):
             rv.append((lay.vars[("inoph", m, k)], lay.vars[("ino", rec["inode"], k)]))
             for fr in fm["frames"]:
                 rv.append((lay.vars[("fe", m, fr["name"], k)], lay.vars[("fe", rec["name"], fr["name"], k)]))
+        rmk = []
+        for fr in fm["frames"]:
+            for (frn, mn) in CMarks.uses_in(fr):
+                pr = (marks.mid(m, frn, mn), marks.mid(rec["name"], frn, mn))
+                if pr not in rmk:
+                    rmk.append(pr)
         psrc = lay.src[lay.srcname[rec["parent"]]]
         mainfid = [f["name"] for f in psrc["frames"]].index(rec["frame"])
-        specs.append("(Build_spec %s (Build_ren %s %s %s) (%s, %s))" % (
-            cn(lay.tid[m]), cpairs(rt), cpairs(rv), cn(K * rec["tid"]), cn(lay.tid[rec["parent"]]), cn(mainfid)))
+        specs.append("(Build_spec %s (Build_ren %s %s %s %s) (%s, %s))" % (
+            cn(lay.tid[m]), cpairs(rt), cpairs(rv), cn(K * rec["tid"]), cpairs(rmk), cn(lay.tid[rec["parent"]]),
+            cn(mainfid)))
     return clist(specs, "spec")
 
 
@@ -427,7 +494,7 @@ def render_coq_clones(prog, lay=None):
     p0 = "(@Build_prog FOps %s %s %s %s)" % (
         clist([R.framer(fm) for fm in prog["framers"]], "(framer FOps)"),
         clist([cn(t) for t in lay.taskables()], "nat"), cf(prog["tick"]), cf(0.0))
-    return "(expand %s %s)" % (p0, render_specs(lay))
+    return "(expand %s %s)" % (p0, render_specs(lay, R.marks))
 
 
 COQ_HEADER = kernel.COQ_HEADER + "Require Import V.C12.Model.\n"
@@ -459,6 +526,8 @@ def expand_src(prog, lay=None):
         def need(n, frn):
             if n[0] == "var":
                 return ["var", vr(n[1], frn), n[2], n[3]]
+            if n[0] in ("updated", "changed"):
+                return [n[0], vr(n[1], frn), n[2], n[3]]
             if n[0] == "not":
                 return ["not", need(n[1], frn)]
             return list(n)
@@ -489,7 +558,7 @@ def expand_src(prog, lay=None):
                 if pa[0] == "act":
                     g["preacts"].append(["act", act(pa[1], frn)])
                 elif pa[0] == "go":
-                    g["preacts"].append(["go", [need(n, frn) for n in pa[1]], pa[2]])
+                    g["preacts"].append(["go", [need(n, frn) for n in pa[1]], pa[2]] + list(pa[3:]))
                 else:
                     g["preacts"].append(["aux", [need(n, frn) for n in pa[1]], pa[2]])
             out["frames"].append(g)
